@@ -81,7 +81,7 @@ def scenario(world: WorldT) -> None:
         except Exception as e:
             world.violate(PROP, "command-raised", f"{ctx}: raised {type(e).__name__}: {e}")
         settle()
-        real = [c for c in model.commands[mark:] if not c.get("dup")]
+        real = list(model.commands[mark:])
         judge(world, ctx, expect, real, model, spa, facade, ident)
     settle()
     if spa.struct.status_block != model.structure.status_block:
